@@ -108,7 +108,11 @@ def oracle_layer(ck, order, biort, qshift, b, colour, x):
     ok, why = same([y], [ref], 1e-9)
     if not ok:
         ck.fail(desc + ': differs from reference DTCWT + formulas: ' + why, replay); return 'diff'
+    # magnitude channels: everything after the pooled low-passes; in the second-order layer the six bands after
+    # the low-pass are *pooled low-passes of first-order magnitudes* (a linear filter output, may be negative)
     nl = (3 if colour else C)
+    if order == 2:
+        nl += 6 * (1 if colour else C)
     if (y[:, nl:] < -1e-12 * max(1.0, abs(b))).any():
         ck.fail(desc + ': a magnitude channel is negative (min %.3g)' % float(y[:, nl:].min()), replay); return 'neg'
     ck.oracle_ok((order, biort, qshift, b, colour, tuple(x.shape)), group='order%d' % order,
